@@ -7,7 +7,8 @@
     TEMPLATE side (lexer columns) is checked on the real tables entry by entry — partial.
     OBLIGATIONS: C16_round_trip_from_template C16_round_trip_from_generated C16_uniqueness_is_decidable
       C16_fragment_is_a_shift C16_strictly_increasing_within_fragment C16_nonvacuous
-      C16_generated_positions_exist C16_position_in_text_is_in_bounds C16_target_entries_in_bounds *)
+      C16_generated_positions_exist C16_position_in_text_is_in_bounds C16_target_entries_in_bounds
+      C16_line_is_split_line *)
 From GV Require Import Compiler.Compile Proofs.EmitProofs Proofs.TargetProofs Proofs.SrcMapProofs Proofs.BoundsProofs.
 
 Theorem C16_round_trip_from_template : forall es l c tl tc,
@@ -64,6 +65,11 @@ Theorem C16_target_entries_in_bounds : forall sm root a k,
     (n <= count_byte 10 (output_of w))%nat /\ (c <= List.length (line_at n (output_of w)))%nat.
 Proof. exact target_entries_in_bounds. Qed.
 Print Assumptions C16_target_entries_in_bounds.
+
+(** the line meant above is the one strings.Split yields, the splitting SourceMap.Add itself uses *)
+Theorem C16_line_is_split_line : forall n s, line_at n s = nth n (split_byte 10 s) [].
+Proof. exact line_at_is_split_line. Qed.
+Print Assumptions C16_line_is_split_line.
 
 (** non-vacuity: the entries the compiler model produces for a file with a multi-line fragment and a format verb
     satisfy the uniqueness hypothesis *)
